@@ -64,10 +64,17 @@ Fixpoint get_gen (parts : list string) (doc : value) {struct parts} : option val
       | VArr xs =>
           match as_index p with
           | Some i => match nth_z xs i with Some v => get_gen rest v | None => None end
-          | None => option_map VArr (all_some (map (get_by_dot (p :: rest)) xs))
+          | None => Some (VArr (flat_map (fun x => match get_by_dot (p :: rest) x with
+                                                    | Some v => [v] | None => [] end) xs))
           end
       | _ => None
       end
+  end.
+
+Fixpoint mapM_res {A B} (f : A -> res B) (l : list A) : res (list B) :=
+  match l with
+  | [] => Ok []
+  | x :: l' => let! y := f x in let! r := mapM_res f l' in Ok (y :: r)
   end.
 
 (* value not in [False, None, 0] *)
@@ -106,7 +113,7 @@ Definition num_mul (a b : value) : res value :=
   match as_int a, as_int b with
   | Some x, Some y => Ok (VInt (x * y))
   | _, _ => match num8 a, num8 b with
-            | Some x, Some y => if (x * y) mod 64 =?? 0 then Ok (VDbl ((x * y) / 64))
+            | Some x, Some y => if (x * y) mod 8 =?? 0 then Ok (VDbl ((x * y) / 8))
                                 else Err EUnmodelled
             | _, _ => Err EUnmodelled
             end
@@ -121,16 +128,17 @@ Fixpoint py_reduce_mul (acc : value) (vs : list value) : res value :=
   | v :: vs' => let! a := num_mul acc v in py_reduce_mul a vs'
   end.
 
-(* min()/max() over a non-empty list with Python's native ordering *)
+(* min()/max() over a non-empty list with key=BsonComparable (only __lt__ is defined, so
+   max's `>` is the reflected `<`); the first extreme element wins *)
 Fixpoint py_min_from (best : value) (vs : list value) : res value :=
   match vs with
   | [] => Ok best
-  | v :: vs' => let! b := py_lt v best in py_min_from (if b then v else best) vs'
+  | v :: vs' => let! b := bson_lt v best in py_min_from (if b then v else best) vs'
   end.
 Fixpoint py_max_from (best : value) (vs : list value) : res value :=
   match vs with
   | [] => Ok best
-  | v :: vs' => let! b := py_lt best v in py_max_from (if b then v else best) vs'
+  | v :: vs' => let! b := bson_lt best v in py_max_from (if b then v else best) vs'
   end.
 
 Definition lower_char (c : ascii) : ascii :=
@@ -156,9 +164,13 @@ Fixpoint str_of_list (l : list ascii) : string :=
 Definition str_slice (s : string) (start : option Z) (stop : option Z) : string :=
   str_of_list (py_slice (list_ascii_of_string s) start stop).
 
+(* _is_numeric: a number that is not a bool *)
+Definition is_numeric (v : value) : bool :=
+  match v with VInt _ | VDbl _ => true | _ => false end.
+
 (* the accumulators also used as expression operators: _GROUPING_OPERATOR_MAP on a list *)
 Definition avg_values (vs : list value) : res value :=
-  let nums := List.filter is_number vs in
+  let nums := List.filter is_numeric vs in
   match nums with
   | [] => Ok VNull
   | _ =>
@@ -171,7 +183,7 @@ Definition avg_values (vs : list value) : res value :=
   end.
 
 Definition group_fold (op : string) (vs : list value) : res value :=
-  if op =? "$sum" then Ok (py_sum (List.filter is_number vs))
+  if op =? "$sum" then Ok (py_sum (List.filter is_numeric vs))
   else if op =? "$avg" then avg_values vs
   else if op =? "$min" then
     match List.filter (fun v => negb (is_null v)) vs with
@@ -202,7 +214,7 @@ Definition not_implemented_op (k : string) : bool :=
 (* operators implemented by mongomock that this model does not cover *)
 Definition unmodelled_op (k : string) : bool :=
   existsb (String.eqb k)
-    ["$ceil"; "$exp"; "$floor"; "$ln"; "$log10"; "$sqrt"; "$trunc"; "$divide"; "$log"; "$mod";
+    ["$exp"; "$ln"; "$log10"; "$sqrt"; "$log";
      "$pow"; "$dateToString"; "$dateFromParts"; "$dayOfMonth"; "$dayOfYear"; "$month"; "$week";
      "$year"; "$regexMatch"; "$split"; "$toString"; "$toInt"; "$toDecimal"; "$toLong";
      "$arrayToObject"; "$objectToArray"].
@@ -249,6 +261,10 @@ Fixpoint eval (vars : list (string * value)) (doc : value) (ign : bool) (e : val
         opt_eres (get_gen (split_dots (drop1 (drop1 s))) (root_vars doc vars))
       else if starts_dollar s then opt_eres (get_gen (split_dots (drop1 s)) doc)
       else EV e
+  | VArr xs =>
+      (* an array literal: every element is parsed, a missing field reads as null *)
+      with_list (map (fun x => match eval vars doc ign x with EMiss => EV VNull | r => r end) xs)
+                (fun vs => EV (VArr vs))
   | VDoc fs =>
       if (1 <?? Z.of_nat (List.length fs)) && existsb (fun kv => starts_dollar (fst kv)) fs
       then EE EOpFail else
@@ -270,6 +286,46 @@ Fixpoint eval (vars : list (string * value)) (doc : value) (ign : bool) (e : val
             | EV (VBool b) => EV (VInt (if b then 1 else 0))
             | EV _ => EE EOpFail
             | EE er => EE er
+            end
+          else if (k =? "$ceil") || (k =? "$floor") || (k =? "$trunc") then
+            (* math.ceil / floor / trunc: an int for every number *)
+            match eval vars doc ign arg with
+            | EMiss | EV VNull => EV VNull
+            | EV (VInt z) => EV (VInt z)
+            | EV (VBool b) => EV (VInt (if b then 1 else 0))
+            | EV (VDbl z) =>
+                EV (VInt (if k =? "$floor" then z / 8
+                          else if k =? "$ceil" then - ((- z) / 8)
+                          else Z.quot z 8))
+            | EV _ => EE EOpFail
+            | EE er => EE er
+            end
+          else if (k =? "$divide") || (k =? "$mod") then
+            match arg with
+            | VArr [a; b] =>
+                with_list [many_item ign (eval vars doc ign a); many_item ign (eval vars doc ign b)]
+                  (fun vs =>
+                     match vs with
+                     | [x; y] =>
+                         if is_null x || is_null y then EV VNull else
+                         match num8 x, num8 y with
+                         | Some p, Some q =>
+                             if k =? "$divide" then
+                               (* x / y: a float; ZeroDivisionError *)
+                               if q =?? 0 then EE ECrash
+                               else if (8 * p) mod q =?? 0 then EV (VDbl ((8 * p) / q)) else EE EUnmodelled
+                             else
+                               (* math.fmod(x, y): a float with the sign of x; ValueError on 0 *)
+                               if q =?? 0 then EE EValue else EV (VDbl (Z.rem p q))
+                         | _, _ => match x, y with
+                                   | VDate _ _, _ | _, VDate _ _ => EE EUnmodelled
+                                   | _, _ => EE EType
+                                   end
+                         end
+                     | _ => EE EUnmodelled
+                     end)
+            | VArr _ => EE EOpFail
+            | _ => EE EOpFail
             end
           else if k =? "$subtract" then
             match arg with
@@ -444,9 +500,14 @@ Fixpoint eval (vars : list (string * value)) (doc : value) (ign : bool) (e : val
             | _ => EE EUnmodelled
             end
           else if k =? "$not" then
-            match to_bool (eval vars doc ign arg) with
-            | Ok b => EV (VBool (negb b))
-            | Err er => EE er
+            let fin := fun r : eres =>
+              match to_bool r with
+              | Ok b => EV (VBool (negb b))
+              | Err er => EE er
+              end in
+            match arg with
+            | VArr [x] => fin (eval vars doc ign x)
+            | _ => fin (eval vars doc ign arg)
             end
           (* ---- conditionals *)
           else if k =? "$cond" then
@@ -473,7 +534,7 @@ Fixpoint eval (vars : list (string * value)) (doc : value) (ign : bool) (e : val
             end
           else if k =? "$ifNull" then
             match arg with
-            | VArr [] => EE ECrash
+            | VArr [] => EE EUnmodelled      (* IndexError: swallowed by Cursor.__next__ under find *)
             | VArr xs =>
                 (fix go (l : list value) : eres :=
                    match l with
@@ -550,12 +611,12 @@ Fixpoint eval (vars : list (string * value)) (doc : value) (ign : bool) (e : val
             | _ => EE EUnmodelled
             end
           else if (k =? "$toLower") || (k =? "$toUpper") then
-            ebind (eval vars doc ign arg) (fun v =>
-              match v with
-              | VNull => EV (VStr "")
-              | VStr s => EV (VStr (map_str (if k =? "$toLower" then lower_char else upper_char) s))
-              | _ => EE EUnmodelled
-              end)
+            match eval vars doc ign arg with
+            | EV VNull | EMiss => EV (VStr "")
+            | EV (VStr s) => EV (VStr (map_str (if k =? "$toLower" then lower_char else upper_char) s))
+            | EV _ => EE EUnmodelled
+            | EE er => EE er
+            end
           else if k =? "$strcasecmp" then
             match arg with
             | VArr [a; b] =>
@@ -563,7 +624,8 @@ Fixpoint eval (vars : list (string * value)) (doc : value) (ign : bool) (e : val
                 ebind (eval vars doc ign b) (fun y =>
                   match x, y with
                   | VStr s, VStr t =>
-                      EV (VInt (match String.compare s t with Eq => 0 | Lt => -1 | Gt => 1 end))
+                      EV (VInt (match String.compare (map_str upper_char s) (map_str upper_char t) with
+                                | Eq => 0 | Lt => -1 | Gt => 1 end))
                   | _, _ => EE EUnmodelled
                   end))
             | VArr _ => EE EOpFail
@@ -648,9 +710,11 @@ Fixpoint eval (vars : list (string * value)) (doc : value) (ign : bool) (e : val
                                | None => Some "this" | Some (VStr n) => Some n | Some _ => None end) with
                         | None => EE EUnmodelled
                         | Some name =>
-                            with_list (map (fun item => cond (vars ++ [(name, item)])) items)
-                              (fun cs => EV (VArr (map fst (List.filter (fun ic => truthy (snd ic))
-                                                                       (combine items cs)))))
+                            (* each condition through _parse_to_bool: a KeyError counts as false *)
+                            match mapM_res (fun item => to_bool (cond (vars ++ [(name, item)]))) items with
+                            | Ok bs => EV (VArr (map fst (List.filter snd (combine items bs))))
+                            | Err er => EE er
+                            end
                         end
                     | EV VNull => EE EType
                     | EV _ => EE EUnmodelled
@@ -743,13 +807,19 @@ Fixpoint eval (vars : list (string * value)) (doc : value) (ign : bool) (e : val
           else if k =? "$setEquals" then
             match arg with
             | VArr xs =>
-                with_list (map (eval vars doc ign) xs)
-                  (fun vs =>
-                     if forallb is_arr vs then
-                       let sets := map (fun v => match v with VArr l => l | _ => [] end) vs in
-                       if forallb (forallb hashable_scalar) sets then EV (VBool (all_pairs_eq sets))
-                       else EE EUnmodelled
-                     else EE EUnmodelled)
+                (* [set(self.parse(v)) for v in values]: one operand after the other *)
+                (fix go (l : list value) (acc : list (list value)) : eres :=
+                   match l with
+                   | [] => EV (VBool (all_pairs_eq acc))
+                   | x :: l' =>
+                       match eval vars doc ign x with
+                       | EV (VArr vs) => if forallb hashable_scalar vs then go l' (acc ++ [vs]) else EE EType
+                       | EV VNull | EV (VInt _) | EV (VDbl _) | EV (VBool _) | EV (VDate _ _) | EV (VOid _) => EE EType
+                       | EV _ => EE EUnmodelled
+                       | EMiss => EMiss
+                       | EE er => EE er
+                       end
+                   end) xs []
             | _ => EE EUnmodelled
             end
           (* ---- date parts *)
